@@ -408,6 +408,13 @@ def scenario(rec, rng, cid):
             opts = {"correct_tip_offset": {"method": "fit_constant_polynomial"},
                     "correct_force_slope": {"region": "approach",
                                             "strategy": "shift"}}
+        if sc != "prep_options" and rng.random() < .5:
+            # one dictionary with the options of all steps the user ever
+            # uses; this request does not contain every one of them
+            opts["correct_force_slope"] = {"region": "approach",
+                                           "strategy": "shift"}
+            opts["smooth_height"] = {}
+            case["options for steps outside the request"] = True
         s0, o0 = copy.deepcopy(steps), copy.deepcopy(opts)
         if sc == "prep_list_via_fit":
             g.call("fit_model", a.fit_model, preprocessing=steps,
